@@ -119,6 +119,42 @@ def fam_chain(tier, rng):
     return out
 
 
+def fam_length(tier, rng):
+    """a constant as the length of a fixed-length string (DIM .. AS STRING * N, a TYPE member): the length is the value
+    PRINT N shows - also when N was computed from a constant that its suffix converted"""
+    out = []
+    # (suffix of A, text value of A in tenths, value A has, expression of N built from A, value of N)
+    cases = []
+    # (only INTEGER constants are admitted as lengths by the checker; no ties - the property does not fix their rounding)
+    for sfx, tenths, aval in (("I", 26, 3), ("I", 34, 3), ("", 30, 3), ("I", 74, 7), ("I", 16, 2), ("I", 31, 3)):
+        for form, nval in (("eq3", None), ("plus", None), ("twice", None)):
+            cases.append((sfx, tenths, aval, form))
+    for sfx, tenths, aval, form in cases:
+        b = B()
+        a_e = flit("S", tenths // 10, tenths % 10) if tenths % 10 else lit("I", tenths // 10)
+        if form == "eq3":
+            n_e = bin_("+", lit("I", 5), par(bin_("=", cref("A"), lit("I", 3))))
+            nval = 5 + (-1 if aval == 3 else 0)
+        elif form == "plus":
+            n_e = bin_("+", cref("A"), lit("I", 1))
+            nval = aval + 1
+        else:
+            n_e = bin_("*", cref("A"), lit("I", 2))
+            nval = aval * 2
+        td = typedef("LT", [("S", "$", "", nval), ("K", "I")])
+        td["fields"][0]["fixtext"] = "N"
+        d1 = b.dim("F", "$", fix=nval)
+        d1["fixtext"] = "N"
+        main = [b.const("A", sfx, a_e, suffixed=bool(sfx)), b.const("N", "", n_e, suffixed=False),
+                b.dim("R", "U", ty="LT"), d1,
+                b.let(fld(var("R", "U"), "S", "$", nval), lit("$", "abcdefghijkl")), b.let(var("F", "$"), lit("$", "abcdefghijkl")),
+                b.print(cref("A"), cref("N"), fld(var("R", "U"), "S", "$", nval), lit("$", "|"), var("F", "$"), lit("$", "|"))]
+        p = prog(main, types=[td])
+        p["types_after"] = 2
+        out.append({"fam": "length:%s/%d/%s" % (sfx or "bare", tenths, form), "prog": p})
+    return out
+
+
 def fam_shadow(tier, rng):
     """a subprogram redefines a module-level constant and then defines another constant from it: inside the
     subprogram the name means the local constant everywhere, also inside constant expressions"""
@@ -181,7 +217,7 @@ def fam_constarg(tier, rng):
     return out
 
 
-FAMILIES = [fam_const, fam_suffix, fam_chain, fam_shadow, fam_constarg]
+FAMILIES = [fam_const, fam_suffix, fam_chain, fam_shadow, fam_constarg, fam_length]
 
 
 def cases(tier, seed):
